@@ -441,53 +441,53 @@ Proof. intros sc items k i H. unfold pop_call. rewrite nth_error_map, H. reflexi
 
 (* ---------------- time-bounded counts ---------------- *)
 (* the instant a stored time denotes, in seconds *)
-Definition seconds (rep : trep) (t : Z) : Q :=
-  match rep with TInt => inject_Z t | TDate => inject_Z t / ns_per_s end.
+Definition seconds (rep : trep) (t : Q) : Q :=
+  match rep with TNum => t | TDate r => t / r end.
+Definition rep_ok (rep : trep) : Prop := match rep with TNum => True | TDate r => 0 < r end.
 
-Lemma after_cutoff_iff rep cutoff t : after_cutoff rep cutoff t = true <-> cutoff < seconds rep t.
+Lemma after_cutoff_iff rep cutoff t : rep_ok rep -> after_cutoff rep cutoff t = true <-> cutoff < seconds rep t.
 Proof.
-  destruct rep; unfold after_cutoff, seconds; rewrite Qltb_lt; [tauto|].
-  assert (P : 0 < ns_per_s) by reflexivity. split; intro H.
-  - apply (Qmult_lt_r _ _ ns_per_s P). setoid_replace (inject_Z t / ns_per_s * ns_per_s) with (inject_Z t); [exact H|].
-    field. intro Z. rewrite Z in P. apply (Qlt_irrefl 0 P).
-  - apply (Qmult_lt_r _ _ ns_per_s P) in H. setoid_replace (inject_Z t / ns_per_s * ns_per_s) with (inject_Z t) in H; [exact H|].
-    field. intro Z. rewrite Z in P. apply (Qlt_irrefl 0 P).
+  destruct rep as [|r]; unfold after_cutoff, seconds, rep_ok; intro P; rewrite Qltb_lt; [tauto|].
+  assert (N : ~ r == 0) by (intro Z; rewrite Z in P; apply (Qlt_irrefl 0 P)).
+  split; intro H.
+  - apply (Qmult_lt_r _ _ r P). setoid_replace (t / r * r) with t by (field; exact N). exact H.
+  - apply (Qmult_lt_r _ _ r P) in H. setoid_replace (t / r * r) with t in H by (field; exact N). exact H.
 Qed.
 
-Lemma after_cutoff_ltb rep cutoff t : after_cutoff rep cutoff t = Qltb cutoff (seconds rep t).
+Lemma after_cutoff_ltb rep cutoff t : rep_ok rep -> after_cutoff rep cutoff t = Qltb cutoff (seconds rep t).
 Proof.
-  destruct (Qltb cutoff (seconds rep t)) eqn:X.
-  - apply after_cutoff_iff, Qltb_lt, X.
+  intro P. destruct (Qltb cutoff (seconds rep t)) eqn:X.
+  - apply after_cutoff_iff; [exact P|]. apply Qltb_lt, X.
   - destruct (after_cutoff rep cutoff t) eqn:Y; [|reflexivity].
-    apply after_cutoff_iff, Qltb_lt in Y. congruence.
+    apply after_cutoff_iff in Y; [|exact P]. apply Qltb_lt in Y. congruence.
 Qed.
 
-Lemma time_bounded_counts_l : forall ni rep cutoff log,
+Lemma time_bounded_counts_l : forall ni rep cutoff log, rep_ok rep ->
   length (tb_counts ni rep cutoff log) = ni /\
   forall i, (i < ni)%nat ->
     nth i (tb_counts ni rep cutoff log) 0%nat
     = length (filter (fun e => Nat.eqb (fst e) i && Qltb cutoff (seconds rep (snd e))) log).
 Proof.
-  intros ni rep cutoff log. unfold tb_counts. split; [rewrite map_length, seq_length; reflexivity|].
+  intros ni rep cutoff log P. unfold tb_counts. split; [rewrite map_length, seq_length; reflexivity|].
   intros i Hi. rewrite nth_map_seq by exact Hi.
   induction log as [|e log IH]; simpl; [reflexivity|].
-  rewrite after_cutoff_ltb. destruct (Qltb cutoff (seconds rep (snd e))); simpl.
+  rewrite (after_cutoff_ltb rep cutoff (snd e) P). destruct (Qltb cutoff (seconds rep (snd e))); simpl.
   - destruct (Nat.eqb (fst e) i); simpl; rewrite IH; reflexivity.
   - rewrite andb_false_r. exact IH.
 Qed.
 
-(* the two representations of the same instants give the same counts *)
-Lemma seconds_same z : seconds TDate (z * 1000000000) == seconds TInt z.
-Proof. unfold seconds, ns_per_s. rewrite inject_Z_mult. field. Qed.
+(* any date-time resolution storing the same instants gives the counts of the numeric representation *)
+Lemma seconds_same r z : 0 < r -> seconds (TDate r) (z * r) == seconds TNum z.
+Proof. intro P. unfold seconds. field. intro Z. rewrite Z in P. apply (Qlt_irrefl 0 P). Qed.
 
-Lemma time_repr_irrelevant_l : forall ni cutoff (log : list (nat * Z)),
-  tb_counts ni TDate cutoff (map (fun e => (fst e, (snd e * 1000000000)%Z)) log) = tb_counts ni TInt cutoff log.
+Lemma time_repr_irrelevant_l : forall ni cutoff r (log : list (nat * Q)), 0 < r ->
+  tb_counts ni (TDate r) cutoff (map (fun e => (fst e, snd e * r)) log) = tb_counts ni TNum cutoff log.
 Proof.
-  intros ni cutoff log. unfold tb_counts. apply map_ext. intro i.
+  intros ni cutoff r log P. unfold tb_counts. apply map_ext. intro i.
   induction log as [|e log IH]; cbn [map filter fst snd]; [reflexivity|].
-  rewrite !after_cutoff_ltb.
-  assert (E : Qltb cutoff (seconds TDate (snd e * 1000000000)) = Qltb cutoff (seconds TInt (snd e))).
-  { unfold Qltb. rewrite (seconds_same (snd e)). reflexivity. }
-  rewrite E. destruct (Qltb cutoff (seconds TInt (snd e))); cbn [filter fst snd]; [|exact IH].
+  rewrite (after_cutoff_ltb (TDate r) cutoff (snd e * r) P), (after_cutoff_ltb TNum cutoff (snd e) I).
+  assert (E : Qltb cutoff (seconds (TDate r) (snd e * r)) = Qltb cutoff (seconds TNum (snd e))).
+  { unfold Qltb. rewrite (seconds_same r (snd e) P). reflexivity. }
+  rewrite E. destruct (Qltb cutoff (seconds TNum (snd e))); cbn [filter fst snd]; [|exact IH].
   destruct (Nat.eqb (fst e) i); cbn [length]; rewrite IH; reflexivity.
 Qed.
